@@ -26,8 +26,11 @@ RULE = ("structured layered packets of tools/pktgen.py (Ethernet II | bare ether
 PROJECTION = ("C05: complete rendering of the lax result (all windows, ip numbers, fragmentation, incomplete flags, length "
               "sources, stop error record + layer tag) and of the strict result")
 ASSUMPTIONS = [
-    "LaxPacketHeaders / IpHeaders::*_lax / Ipv6Slice::from_slice_lax (header-struct family) are not part of this check; "
-    "they are tied to the slice family by C04/C06",
+    "LaxPacketHeaders (header-struct family) is not modelled by this check's runner; (c) is proved about C04's model "
+    "(Parse/HdrLaxModel.v), (a) and (b) are proved by composition with C04 (C05_headers_lax_extends_strict, C05_headers_lax_prefix, "
+    "Parse/HdrLaxC05.v) outside the documented struct-decoding exception (an IPv6 extension header of a kind whose struct slot is "
+    "filled), and compared with PacketHeaders on the implementation side; the payload's incomplete flag of LaxPacketHeaders is "
+    "checked by C04 (model correspondence), not here; IpHeaders::*_lax / Ipv6Slice::from_slice_lax are tied to the slice family by C04/C06",
     "same fault: length errors are compared on (required_len, len, layer, layer_start_offset), content errors on the "
     "variant and value; faults of the IP header itself are compared as a group (layer IpHeader, same offset) because "
     "strict Ipv4Slice/Ipv6Slice and lax LaxIpSlice describe a cut-short IP header differently (finding F11)",
